@@ -26,20 +26,20 @@ const ModPath = "github.com/np-guard/netpol-analyzer"
 
 // Short package names used all over the rules.
 const (
-	PkgEval     = ModPath + "/pkg/netpol/eval"
-	PkgK8s      = ModPath + "/pkg/netpol/eval/internal/k8s"
-	PkgCommon   = ModPath + "/pkg/netpol/internal/common"
-	PkgConnlist = ModPath + "/pkg/netpol/connlist"
-	PkgDiff     = ModPath + "/pkg/netpol/diff"
-	PkgIngress  = ModPath + "/pkg/netpol/connlist/internal/ingressanalyzer"
-	PkgParser   = ModPath + "/pkg/manifests/parser"
-	PkgScanner  = ModPath + "/pkg/manifests/fsscanner"
-	PkgCLI      = ModPath + "/pkg/cli"
-	PkgDot      = ModPath + "/pkg/netpol/internal/dotformatting"
-	PkgErrors   = ModPath + "/pkg/internal/netpolerrors"
-	PkgLogger   = ModPath + "/pkg/logger"
+	PkgEval      = ModPath + "/pkg/netpol/eval"
+	PkgK8s       = ModPath + "/pkg/netpol/eval/internal/k8s"
+	PkgCommon    = ModPath + "/pkg/netpol/internal/common"
+	PkgConnlist  = ModPath + "/pkg/netpol/connlist"
+	PkgDiff      = ModPath + "/pkg/netpol/diff"
+	PkgIngress   = ModPath + "/pkg/netpol/connlist/internal/ingressanalyzer"
+	PkgParser    = ModPath + "/pkg/manifests/parser"
+	PkgScanner   = ModPath + "/pkg/manifests/fsscanner"
+	PkgCLI       = ModPath + "/pkg/cli"
+	PkgDot       = ModPath + "/pkg/netpol/internal/dotformatting"
+	PkgErrors    = ModPath + "/pkg/internal/netpolerrors"
+	PkgLogger    = ModPath + "/pkg/logger"
 	PkgPkgCommon = ModPath + "/pkg/internal/common"
-	PkgOutput   = ModPath + "/pkg/internal/output"
+	PkgOutput    = ModPath + "/pkg/internal/output"
 )
 
 // FuncDecl is one source function of the module with everything needed to
